@@ -153,7 +153,7 @@ Definition cmon_step (cfg : config) (m : cmst) (ev : event) : cmst + Z :=
       if negb (closed_code (m_cands m) (m_bad m) cl =? 0) then inr (closed_code (m_cands m) (m_bad m) cl)
       else if negb (closed_out_of_grace a (m_gstart m) (m_cands m) cl) then inr 37
       else if negb (m_proceed m) && negb (is_nil cl) then inr 33
-      else if m_proceed m && negb (m_remaining a (m_gstart m) (m_cands m) cl <=? c_low cfg + m_added m) then inr 34
+      else if m_proceed m && negb (m_remaining a (m_gstart m) (m_cands m) cl <=? Z.max 0 (c_low cfg) + m_added m) then inr 34
       else inl (mkCM a (m_tick m) false (m_proceed m) (m_gstart m) (m_cands m) (m_bad m) (m_added m))
   | ERead p v =>
       let x := ap_at a p in
